@@ -86,6 +86,10 @@ def prefixes(tier, rnd):
                 "[ref: 12]", ""]:
         for d in ["// breadlog:no-kvp", "/* BREADLOG:NO-KVP */", "//breadlog:no-kvp"]:
             yield ("nokvp-directive", msg + " " + d[:2], ("nokvp", d))
+    # more brackets right after a valid token
+    for tail in [" [db] pool ready", "[x]", " ] ]", " [ref: 9] second", "]", " [", "[]", " [a][b][c][d]"]:
+        for tok in ["[ref: 5]", "[ref: 12]", "[ref: 4294967295]"]:
+            yield ("brackets-after-token", tok + tail, None)
     # ref-like text elsewhere
     for tok in ["[ref: 5] ", "[ref: 4294967295]", "ref = 5; "]:
         yield ("elsewhere-later", "msg then " + tok + "later", None)
@@ -133,7 +137,11 @@ def work(job):
         res["inconclusive"]["run-crashed (C17's business)"] = 1
         return res
     if fo.tokens is None:
-        res["inconclusive"]["prerequisite C03 failed (decomposition)"] = 1
+        # in these one-statement-per-line files an edit that is not a set of token insertions means that what was inserted is not a
+        # reference token at all - this property's own subject
+        res["violations"].append({"signature": "C12.inserted-text-is-not-a-reference-token",
+                                  "detail": {"before_head": fo.before[:200], "after_head": (fo.after or b"")[:260]},
+                                  "case": {"cases": [list(c) for c in cases[:40]], "idbase": idbase}})
         return res
     rep = set(fo.reported)
     tok = {t["off"]: t for t in fo.tokens}
